@@ -25,7 +25,7 @@ def alpha_ok(alpha, arity):
 
 
 def gen_kb(rng, n_atoms=(2, 5), n_conn=(1, 6), kinds=None, weighted=True, downward=True,
-           alphas=True, atom_alpha=True, max_arity=4):
+           alphas=True, atom_alpha=True, max_arity=4, worlds=False):
     kinds = kinds or ["and", "or", "implies", "not", "iff", "xor", "and", "or", "implies"]
     nodes = []
     na = rng.randint(*n_atoms)
@@ -70,6 +70,10 @@ def gen_kb(rng, n_atoms=(2, 5), n_conn=(1, 6), kinds=None, weighted=True, downwa
                     n["b"] = rng.choice(BIASES)
         nodes.append(n)
         nid += 1
+    if worlds:
+        for n in nodes:
+            if n["kind"] in ("atom", "and", "or", "implies") and rng.random() < 0.12:
+                n["world"] = rng.choice(["axiom", "closed"])
     used = {j for n in nodes for j in n.get("ops", [])}
     roots = [n["id"] for n in nodes if n["id"] not in used and n["kind"] != "atom"]
     if not roots:
@@ -77,7 +81,10 @@ def gen_kb(rng, n_atoms=(2, 5), n_conn=(1, 6), kinds=None, weighted=True, downwa
     # a stray atom that is nobody's operand is added as its own root
     roots += [n["id"] for n in nodes if n["kind"] == "atom" and n["id"] not in used]
     rng.shuffle(roots)
-    return {"nodes": nodes, "roots": roots}
+    desc = {"nodes": nodes, "roots": roots}
+    if worlds and rng.random() < 0.3:
+        desc["root_world"] = {rng.choice(roots): rng.choice(["axiom", "closed"])}
+    return desc
 
 
 def grid_bounds_around(rng, v, den=16, point_p=0.15, wide_p=0.25):
@@ -301,8 +308,9 @@ def run_c07(case):
         if vi >= 1:
             rng.shuffle(roots)
         kb.add_roots(roots)
-        lines += kb.header_lines()
-        out += ["ok"] * (len(kb.order) + 1)
+        hdr = kb.header_lines()
+        lines += hdr
+        out += ["ok"] * len(hdr)
         if data is None:
             if case.get("interp_atoms") is not None:
                 interp = truth_values(kb, {int(k): v for k, v in case["interp_atoms"].items()})
@@ -381,8 +389,9 @@ def run_c20(case):
         impl.take_log()
         kb = impl.PropKB(case["kb"])
         kb.add_roots()
-        lines.extend(kb.header_lines())
-        out.extend(["ok"] * (len(kb.order) + 1))
+        hdr = kb.header_lines()
+        lines.extend(hdr)
+        out.extend(["ok"] * len(hdr))
         if case.get("interp_atoms") is not None:
             interp = truth_values(kb, {int(k): v for k, v in case["interp_atoms"].items()})
             drng = random.Random(case.get("data_seed", 0))
